@@ -35,8 +35,13 @@ FS_FAULTS = {
     "format-fifo": "a%sb%(k)d{0}{x}",
     "glob-socket": "*[a-z]?$HOME`id`",
     "percent-symlink-loop": "100%",
+    # names that are not UTF-8 (a tree unpacked from an old archive), and one that is but not in Latin-1
+    "bytes-dangling-symlink": "caf\udce9",
+    "bytes-socket": "\udcff\udcfe sock",
+    "bytes-fifo": "na\u00efve \u4e2d\u6587 \udce9",
+    "bytes-name-dotdot": "r\udce9sum\udce9..old",
 }
-NAME_PREFIXES = ("dot-", "percent-", "format-", "glob-")
+NAME_PREFIXES = ("dot-", "percent-", "format-", "glob-", "bytes-")
 # unservable objects named like the sidecar of a healthy sibling (or of a healthy sub-directory): describing
 # the sibling must survive them.  kind -> (what it is, sidecar extension)
 SIDECAR_FAULTS = {"sidecar-socket": ("socket", ".abstract"), "sidecar-dir": ("dir", ".ask"), "sidecar-fifo": ("fifo", ".3d"),
@@ -231,7 +236,7 @@ def run_case(chk: Check, sc: Scratch, idx: int, handlers, hl_name: str, nhealthy
     fulltwin.materialize(twin)
     sel = b"/" + depth if depth else b"/"
     base = b"" if sel == b"/" else sel
-    faulty_sels = {base + b"/" + n.encode() for n in faulty_names}
+    faulty_sels = {base + b"/" + os.fsencode(n) for n in faulty_names}
     twinsite = driver.Site(twin, handlers=handlers)
     refs = {}
     try:
